@@ -78,10 +78,10 @@ theorem eval_rg (I : Interp) : (e : Expr) →
     refine ⟨?_, fun o acc h => by simp [shortcutOk] at h⟩
     have : regroup (.tuple e es) = .tuple (regroup e) (rgArgs es) := by simp [regroup, rg, wrapCtx]
     rw [this]; simp only [eval]; rw [(eval_rg I e).1, evalArgs_rg I es]
-  | .block e => by
+  | .block b => by
     refine ⟨?_, fun o acc h => by simp [shortcutOk] at h⟩
-    have : regroup (.block e) = .block (regroup e) := by simp [regroup, rg, wrapCtx]
-    rw [this]; simp only [eval]; rw [(eval_rg I e).1]
+    have : regroup (.block b) = .block (rgBlk b) := by simp [regroup, rg, wrapCtx]
+    rw [this]; simp only [eval]; rw [evalBlk_rg I b]
   | .post e p f => by
     refine ⟨?_, fun o acc h => by simp [shortcutOk] at h⟩
     have : regroup (.post e p f) = .post (regroup e) p f := by simp [regroup, rg, wrapCtx]
@@ -96,9 +96,9 @@ theorem eval_rg (I : Interp) : (e : Expr) →
     rw [this]; simp only [eval]; rw [(eval_rg I f).1, evalArgs_rg I args]
   | .ifElse c t e => by
     refine ⟨?_, fun o acc h => by simp [shortcutOk] at h⟩
-    have : regroup (.ifElse c t e) = .ifElse (regroup c) (regroup t) (regroup e) := by
+    have : regroup (.ifElse c t e) = .ifElse (regroup c) (rgBlk t) (rgBlk e) := by
       simp [regroup, rg, wrapCtx]
-    rw [this]; simp only [eval]; rw [(eval_rg I c).1, (eval_rg I t).1, (eval_rg I e).1]
+    rw [this]; simp only [eval]; rw [(eval_rg I c).1, evalBlk_rg I t, evalBlk_rg I e]
   | .matchE m cs => by
     refine ⟨?_, fun o acc h => by simp [shortcutOk] at h⟩
     have : regroup (.matchE m cs) = .matchE (regroup m) (rgCases cs) := by simp [regroup, rg, wrapCtx]
@@ -148,6 +148,23 @@ theorem evalCases_rg (I : Interp) : (cs : Cases) → evalCases I (rgCases cs) = 
   | .cons k b rest => by
     have : rgCases (.cons k b rest) = .cons k (regroup b) (rgCases rest) := by simp [rgCases, regroup]
     rw [this]; simp only [evalCases]; rw [(eval_rg I b).1, evalCases_rg I rest]
+theorem evalBlk_rg (I : Interp) : (b : Blk) → evalBlk I (rgBlk b) = evalBlk I b
+  | .fin ss e => by
+    have : rgBlk (.fin ss e) = .fin (rgStmts ss) (regroup e) := by simp [rgBlk, regroup]
+    rw [this]; simp only [evalBlk]; rw [(eval_rg I e).1, evalStmts_rg I ss]
+  | .noFin ss => by
+    have : rgBlk (.noFin ss) = .noFin (rgStmts ss) := by simp [rgBlk]
+    rw [this]; simp only [evalBlk]; rw [evalStmts_rg I ss]
+theorem evalStmts_rg (I : Interp) : (ss : Stmts) → ∀ k, evalStmts I (rgStmts ss) k = evalStmts I ss k
+  | .nil, k => by simp [rgStmts]
+  | .letS n e rest, k => by
+    have : rgStmts (.letS n e rest) = .letS n (regroup e) (rgStmts rest) := by simp [rgStmts, regroup]
+    rw [this]; simp only [evalStmts]; rw [(eval_rg I e).1]
+    congr; funext v; congr; funext _; exact evalStmts_rg I rest k
+  | .exprS e rest, k => by
+    have : rgStmts (.exprS e rest) = .exprS (regroup e) (rgStmts rest) := by simp [rgStmts, regroup]
+    rw [this]; simp only [evalStmts]; rw [(eval_rg I e).1]
+    congr; funext _; exact evalStmts_rg I rest k
 end
 
 end SamVerif.FmtFull
